@@ -1,7 +1,7 @@
 (** Extraction of the executable models to OCaml (oracle for the
     correspondence checks).  ExtrOcamlBasic only; N/positive/nat stay the
     extracted inductive types. *)
-From XZ Require Import Base Crc Sha256 Bcj BcjInst CodeWrap C11Lemmas.
+From XZ Require Import Base Crc Sha256 Bcj BcjInst CodeWrap C11Lemmas Lzma Lzma2 Xz Formats.
 Require Extraction.
 Require Import ExtrOcamlBasic.
 Extraction Language OCaml.
@@ -9,4 +9,6 @@ Set Extraction KeepSingleton.
 Extraction "xzmodel"
   Crc.crc32 Crc.crc64 Sha256.sha256
   BcjInst.bcj_code BcjInst.bcj_whole Bcj.delta_encode Bcj.delta_decode
-  C11Lemmas.hist_run C11Lemmas.hist_start.
+  C11Lemmas.hist_run C11Lemmas.hist_start
+  Lzma2.lzma2_decode Xz.xz_decode_single Xz.xz_decode_concat Formats.alone_decode Formats.lzip_decode Formats.auto_decode
+  Formats.lzma1_decode Xz.vli_encode Xz.vli_decode.
